@@ -9,6 +9,7 @@ import (
 	"os"
 	"path/filepath"
 	"runtime"
+	"strings"
 	"sync"
 	"time"
 
@@ -114,14 +115,13 @@ func CloseClient(c *client.Client) error {
 		}()
 		done <- c.Close()
 	}()
-	select {
-	case err := <-done:
-		c.VerifForget()
-		return err
-	case <-time.After(20 * time.Second):
+	if !WaitActive(20*time.Second, 5*time.Millisecond, func() bool { return len(done) > 0 }) {
 		c.VerifStop()
-		return fmt.Errorf("timeout: client Close did not return within 20s")
+		return fmt.Errorf("timeout: client Close did not return within 20 s of active time")
 	}
+	err := <-done
+	c.VerifForget()
+	return err
 }
 
 // StopAllLeakedClients stops every client still registered.
@@ -173,27 +173,53 @@ func (s *UDPSink) Count() int {
 // WaitCount waits until at least n datagrams arrived (loopback delivery is
 // asynchronous) or the timeout expires.
 func (s *UDPSink) WaitCount(n int, d time.Duration) bool {
-	deadline := time.Now().Add(d)
-	for s.Count() < n {
-		if time.Now().After(deadline) {
-			return false
-		}
-		time.Sleep(200 * time.Microsecond)
-	}
-	return true
+	// the budget is counted in active time (see patience.go)
+	return WaitActive(d, 200*time.Microsecond, func() bool { return s.Count() >= n })
 }
 
-// Settle waits until no new datagram arrived for the given quiet period.
+// Settle waits until everything sent to the sink so far has been recorded:
+// the kernel's receive queue of the socket is empty (/proc/net/udp) and the
+// count has been stable for a few polls. Datagrams are written to the socket
+// synchronously by the sender, so once the sender has returned they are either
+// in that queue or already recorded. (A pure "quiet period" is not reliable
+// when the machine is busy: the reader goroutine may simply not have run yet.)
 func (s *UDPSink) Settle(quiet time.Duration) {
-	last := s.Count()
-	t0 := time.Now()
-	for time.Since(t0) < quiet {
-		time.Sleep(quiet / 4)
-		if c := s.Count(); c != last {
-			last = c
-			t0 = time.Now()
+	stable := 0
+	last := -1
+	start := ActiveNow()
+	for stable < 3 && ActiveNow()-start < 10*time.Second {
+		time.Sleep(quiet/4 + 200*time.Microsecond)
+		q := udpRxQueue(s.Port)
+		c := s.Count()
+		if q == 0 && c == last {
+			stable++
+		} else {
+			stable = 0
+		}
+		last = c
+	}
+}
+
+// udpRxQueue returns the number of bytes queued in the kernel for the UDP
+// socket bound to 127.0.0.1:port (-1 if unknown).
+func udpRxQueue(port uint16) int {
+	b, err := os.ReadFile("/proc/net/udp")
+	if err != nil {
+		return 0
+	}
+	want := fmt.Sprintf("0100007F:%04X", port)
+	for _, line := range strings.Split(string(b), "\n") {
+		f := strings.Fields(line)
+		if len(f) > 4 && f[1] == want {
+			parts := strings.Split(f[4], ":")
+			if len(parts) == 2 {
+				var q int
+				fmt.Sscanf(parts[1], "%X", &q)
+				return q
+			}
 		}
 	}
+	return 0
 }
 
 // All returns a copy of everything received.
